@@ -214,6 +214,8 @@ fn run_inj(base: Instant, c: &InjCase) -> InjOut {
 /// Stateless reset / VN / Retry probes against the client or the server
 #[derive(Clone, Debug)]
 struct ProbeCase {
+    /// false: default configuration, W1; true: connection IDs rotated every 200 ms, 60 kB transfer
+    rotating: bool,
     target: usize,
     /// step index at which to inject
     at_step: u64,
@@ -225,6 +227,8 @@ enum ProbeKind {
     ResetExact,
     ResetBitFlip(usize),
     ResetOtherCid,
+    /// token of a connection ID the peer has issued but the target is not using
+    ResetSpareCid,
     ResetFromOtherAddr,
     ResetShort, // token alone, too short to be a packet
     VersionNeg { includes_ours: bool },
@@ -277,8 +281,8 @@ struct ProbeOut {
 
 fn run_probe(base: Instant, c: &ProbeCase) -> ProbeOut {
     let r = guarded(|| {
-        let cfg = cfg_by_name("default");
-        let mut p = std_pair(base, &cfg, Wl::W1, ReadMode::default());
+        let cfg = cfg_by_name(if c.rotating { "cidlife" } else { "default" });
+        let mut p = std_pair(base, &cfg, if c.rotating { Wl::W6 } else { Wl::W1 }, ReadMode::default());
         let mut applicable = true;
         let mut accepted_before = false;
         let mut injected = false;
@@ -304,9 +308,24 @@ fn run_probe(base: Instant, c: &ProbeCase) -> ProbeOut {
                 };
                 match &c.kind {
                     ProbeKind::Nothing => {}
-                    ProbeKind::ResetExact | ProbeKind::ResetBitFlip(_) | ProbeKind::ResetOtherCid | ProbeKind::ResetFromOtherAddr | ProbeKind::ResetShort => {
+                    ProbeKind::ResetExact | ProbeKind::ResetBitFlip(_) | ProbeKind::ResetOtherCid | ProbeKind::ResetSpareCid | ProbeKind::ResetFromOtherAddr | ProbeKind::ResetShort => {
                         // token for the CID the target currently uses towards its peer
-                        match last_short_dcid(&p, target) {
+                        // the connection ID the target is using right now: by sequence number (probe
+                        // hook) when it has switched to a later one than it last sent with
+                        let in_use_seq = p.w.slot(target, if target == CLIENT { p.cch } else { p.sch().unwrap_or(p.cch) }).map_or(0, |s| s.conn.verif_probe().rem_cid_seq);
+                        let by_seq: Option<Vec<u8>> = if in_use_seq == 0 {
+                            None
+                        } else {
+                            let tcl0 = p.w.nodes[target].cid_len;
+                            p.w.recs.iter().find_map(|r| match r {
+                                Rec::Emit { node, data, fate, .. } if *node == peer && *fate != Fate::Drop => ledger::decode(data, tcl0).into_iter().flat_map(|(_, fr)| fr).find_map(|f| match f {
+                                    wire::WFrame::NewConnectionId { seq, cid, .. } if seq == in_use_seq => Some(cid),
+                                    _ => None,
+                                }),
+                                _ => None,
+                            })
+                        };
+                        match by_seq.or_else(|| last_short_dcid(&p, target)) {
                             None => applicable = false,
                             Some(cid) if cid.is_empty() => applicable = false,
                             Some(cid) => {
@@ -330,11 +349,45 @@ fn run_probe(base: Instant, c: &ProbeCase) -> ProbeOut {
                                         other[0] = other[0].wrapping_add(0x40);
                                         tok = crate::sim::reset_token_for(peer_seed, &other);
                                     }
+                                    ProbeKind::ResetSpareCid => {
+                                        // the connection ID with the highest sequence number the peer put on the
+                                        // wire that is not the one in use
+                                        let mut spare: Option<(u64, Vec<u8>)> = None;
+                                        for r in &p.w.recs {
+                                            if let Rec::Emit { node, data, fate, .. } = r {
+                                                if *node == peer && *fate != Fate::Drop {
+                                                    for (_, fr) in ledger::decode(data, tcl) {
+                                                        for f in fr {
+                                                            if let wire::WFrame::NewConnectionId { seq, cid: c2, .. } = f {
+                                                                if c2 != cid && spare.as_ref().map_or(true, |(s, _)| seq > *s) {
+                                                                    spare = Some((seq, c2));
+                                                                }
+                                                            }
+                                                        }
+                                                    }
+                                                }
+                                            }
+                                        }
+                                        match spare {
+                                            Some((_, c2)) => tok = crate::sim::reset_token_for(peer_seed, &c2),
+                                            None => applicable = false,
+                                        }
+                                    }
                                     ProbeKind::ResetFromOtherAddr => src = addr(7),
                                     ProbeKind::ResetShort => lead = 0,
                                     _ => {}
                                 }
-                                p.w.inject(src, target_addr, dgram(tok, lead), Duration::ZERO);
+                                if applicable {
+                                    if dumping() {
+                                        println!("PROBE: in-use seq {in_use_seq} cid {cid:02x?} token {tok:?} issued={token_issued}");
+                                    }
+                                    // handed to the target at once: nothing else may be processed between
+                                    // reading which CID is in use and the arrival of the probe
+                                    let seq = p.w.seq;
+                                    p.w.seq += 1;
+                                    let at = p.w.t;
+                                    p.w.deliver(crate::sim::Flight { at, seq, idx: u64::MAX, src, dst: target_addr, ecn: None, data: dgram(tok, lead), injected: true });
+                                }
                             }
                         }
                     }
@@ -596,7 +649,8 @@ pub fn main(args: &Args) -> ! {
             kinds.push(ProbeKind::RetryBadTag(b));
         }
     }
-    let baseline = run_probe(base, &ProbeCase { target: CLIENT, at_step: 0, kind: ProbeKind::Nothing });
+    let baseline_plain = run_probe(base, &ProbeCase { rotating: false, target: CLIENT, at_step: 0, kind: ProbeKind::Nothing });
+    let baseline_rot = run_probe(base, &ProbeCase { rotating: true, target: CLIENT, at_step: 0, kind: ProbeKind::Nothing });
     let mut probe_cases = vec![];
     let steps: Vec<u64> = if thorough { (0..40).collect() } else { vec![0, 1, 2, 3, 4, 6, 8, 12, 20, 30] };
     for target in [CLIENT, SERVER] {
@@ -606,7 +660,17 @@ pub fn main(args: &Args) -> ! {
                 if client_only && target == SERVER {
                     continue;
                 }
-                probe_cases.push(ProbeCase { target, at_step: s, kind: k.clone() });
+                probe_cases.push(ProbeCase { rotating: false, target, at_step: s, kind: k.clone() });
+            }
+        }
+    }
+    // the same reset probes while connection IDs are being rotated (NEW_CONNECTION_ID with
+    // retire_prior_to): the token that counts is the one of the CID in use at that moment
+    let rsteps: Vec<u64> = if thorough { (20..400).step_by(10).collect() } else { vec![40, 90, 130, 170, 210, 260, 320] };
+    for target in [CLIENT, SERVER] {
+        for &s in &rsteps {
+            for k in [ProbeKind::ResetExact, ProbeKind::ResetSpareCid, ProbeKind::ResetOtherCid, ProbeKind::ResetBitFlip(77)] {
+                probe_cases.push(ProbeCase { rotating: true, target, at_step: s, kind: k });
             }
         }
     }
@@ -621,8 +685,9 @@ pub fn main(args: &Args) -> ! {
         if !o.applicable {
             continue;
         }
+        let baseline = if c.rotating { &baseline_rot } else { &baseline_plain };
         let mut h = std::collections::hash_map::DefaultHasher::new();
-        (c.target, c.at_step, format!("{:?}", c.kind)).hash(&mut h);
+        (c.rotating, c.target, c.at_step, format!("{:?}", c.kind)).hash(&mut h);
         rep.distinct.insert(h.finish());
         let mut v = o.viol.clone();
         let was_reset = o.lost_target.iter().any(|l| l == "Reset");
@@ -639,7 +704,7 @@ pub fn main(args: &Args) -> ! {
                     v.push(("exact-reset-token-ignored".into(), format!("a stateless reset with exactly the token issued for the CID in use did not end the connection (lost={:?})", o.lost_target)));
                 }
             }
-            ProbeKind::ResetBitFlip(_) | ProbeKind::ResetOtherCid | ProbeKind::ResetFromOtherAddr | ProbeKind::ResetShort => {
+            ProbeKind::ResetBitFlip(_) | ProbeKind::ResetOtherCid | ProbeKind::ResetSpareCid | ProbeKind::ResetFromOtherAddr | ProbeKind::ResetShort => {
                 if !o.lost_target.is_empty() || !o.lost_other.is_empty() || o.events != baseline.events {
                     v.push(("wrong-reset-token-acted-on".into(), format!("a datagram that is not a valid stateless reset changed the outcome: lost={:?}/{:?}", o.lost_target, o.lost_other)));
                 }
@@ -685,8 +750,8 @@ pub fn main(args: &Args) -> ! {
         for (sig, what) in v {
             rep.violation(Violation {
                 signature: format!("{sig}:{}", if c.target == CLIENT { "client" } else { "server" }),
-                what: format!("target={} step={} probe={:?}: {what}", if c.target == CLIENT { "client" } else { "server" }, c.at_step, c.kind),
-                replay: json!({"check":"c04","kind":"probe","target":c.target,"step":c.at_step,"probe":format!("{:?}",c.kind)}),
+                what: format!("target={} step={} probe={:?} cid-rotation={}: {what}", if c.target == CLIENT { "client" } else { "server" }, c.at_step, c.kind, c.rotating),
+                replay: json!({"check":"c04","kind":"probe","target":c.target,"step":c.at_step,"probe":format!("{:?}",c.kind),"rotating":c.rotating}),
             });
         }
     }
@@ -749,7 +814,7 @@ fn replay(args: &Args) -> ! {
         "probe" => {
             DUMP.store(true, std::sync::atomic::Ordering::Relaxed);
             let kind = parse_probe(r["probe"].as_str().unwrap());
-            let o = run_probe(base, &ProbeCase { target: r["target"].as_u64().unwrap() as usize, at_step: r["step"].as_u64().unwrap(), kind });
+            let o = run_probe(base, &ProbeCase { rotating: r["rotating"].as_bool().unwrap_or(false), target: r["target"].as_u64().unwrap() as usize, at_step: r["step"].as_u64().unwrap(), kind });
             println!("lost_target={:?} lost_other={:?} done={} retries_seen={} applicable={} accepted_before={} token_issued={} viol={:?}", o.lost_target, o.lost_other, o.done, o.retries_seen, o.applicable, o.server_packet_accepted_before, o.token_issued, o.viol);
         }
         other => {
@@ -796,6 +861,7 @@ fn parse_probe(s: &str) -> ProbeKind {
     match s {
         "ResetExact" => ProbeKind::ResetExact,
         "ResetOtherCid" => ProbeKind::ResetOtherCid,
+        "ResetSpareCid" => ProbeKind::ResetSpareCid,
         "ResetFromOtherAddr" => ProbeKind::ResetFromOtherAddr,
         "ResetShort" => ProbeKind::ResetShort,
         "RetryValid" => ProbeKind::RetryValid,
